@@ -25,9 +25,9 @@ EXHAUSTIVE = False
 
 
 def plan(tier, seed):
-    jmax = 200000 if tier == "quick" else 2000000
+    jmax = 200000 if tier == "quick" else 20000000
     return [{"shard": i, "n_shards": 16, "jmax": jmax, "nzrad": 5 if tier == "quick" else 8,
-             "reps": 1 if tier == "quick" else 6} for i in range(16)]
+             "reps": 1 if tier == "quick" else 16} for i in range(16)]
 
 
 def noll_enumerate(jmax):
